@@ -922,7 +922,8 @@ pub fn gen_c10(seed: u64, i: u64, _thorough: bool) -> Value {
         for (n, sc) in scripts.iter().enumerate() {
             for (a, act) in sc.iter().enumerate() {
                 if matches!(act, ActB::Cleanup) && rng.chance(1, 2) {
-                    faults.push((n, a, 1 + rng.below(25) as u32, Decision::Crash));
+                    // ... or one of its requests (a listing page, a read, a deletion) fails
+                    faults.push((n, a, 1 + rng.below(25) as u32, *rng.pick(&[Decision::Crash, Decision::Crash, Decision::FailBefore, Decision::FailAfter])));
                 }
             }
         }
